@@ -104,6 +104,57 @@ def mshow(m):
     return ' + '.join('(%r)*%s' % (c, k[1] if k[0] == 'M' else '%s %s\'' % (k[1], k[2])) for k, c in sorted(m.items())) or '0'
 
 
+def guard_kind(f, cond):
+    """classify the condition of a branch that replaces a component by zeros.  Returns None when it contains no NaN test (an ordinary branch),
+    else (literal_thresholds, other): the disjuncts that compare a floating value with a non-zero literal, and the disjuncts that are neither
+    a NaN test, nor a comparison with literal 0, nor such a threshold"""
+    if not _has_nan_test(cond):
+        return None
+    parts = []
+
+    def split(n):
+        n0 = strip(n)
+        while n0.get('kind') == 'ParenExpr':
+            n0 = strip(kids(n0)[0])
+        if n0.get('kind') == 'BinaryOperator' and n0.get('opcode') == '||':
+            for c in kids(n0):
+                split(c)
+        else:
+            parts.append(n0)
+    split(cond)
+    lits, other = [], []
+    for d in parts:
+        if _has_nan_test(d) and not (d.get('kind') == 'BinaryOperator' and d.get('opcode') in ('&&',)):
+            continue
+        if d.get('kind') == 'BinaryOperator' and d.get('opcode') in ('<', '<=', '>', '>=', '=='):
+            a, b = kids(d)
+            la, lb = _literal(a), _literal(b)
+            if (la is not None) != (lb is not None):
+                v = la if la is not None else lb
+                if v == 0.0:
+                    continue                                # exactly zero: the null component itself
+                lits.append((f.unit.text(d)[:60], v))
+                continue
+        other.append(f.unit.text(d)[:60])
+    return lits, other
+
+
+def _literal(n):
+    v = strip(n, casts=True) if 'casts' in strip.__code__.co_varnames else strip(n)
+    while v.get('kind') == 'ParenExpr':
+        v = strip(kids(v)[0])
+    sign = 1.0
+    if v.get('kind') == 'UnaryOperator' and v.get('opcode') in ('+', '-'):
+        sign = -1.0 if v['opcode'] == '-' else 1.0
+        v = strip(kids(v)[0])
+    if v.get('kind') in ('FloatingLiteral', 'IntegerLiteral'):
+        try:
+            return sign * float(v.get('value'))
+        except (TypeError, ValueError):
+            return None
+    return None
+
+
 class Tail:
     """interpreter for a straight-line sequence of vector kernels and whole-vector loops"""
 
@@ -117,6 +168,7 @@ class Tail:
         self.cellstores = []     # (container, index text, scalar value, node)
         self.same_size = {}      # vector -> extents known to equal its size (from its allocation)
         self.partial = []        # (container, where, how) updates that provably touch only part of a container
+        self.thresholds = []     # (where, text, literal) magnitude tests that send a non-null component down the null-component branch
         self.ignore_out = None
         self.params, self.pnames = set(), [p['name'] for p in f.params]
 
@@ -134,6 +186,7 @@ class Tail:
         t.cellstores = list(self.cellstores)
         t.same_size = self.same_size
         t.partial = list(self.partial)
+        t.thresholds = list(self.thresholds)
         t.path = list(getattr(self, 'path', []))
         t.imprecise = getattr(self, 'imprecise', False)
         return t
@@ -420,7 +473,13 @@ class Tail:
                 return
         if k == 'IfStmt':
             ks = kids(s)
-            if _has_nan_test(ks[0]) and len(ks) == 2:
+            gk = guard_kind(self.f, ks[0]) if len(ks) == 2 else None
+            if gk is not None:
+                lits, other = gk
+                if other:
+                    raise NotUnderstood('the null-component branch at %s is also taken when `%s`' % (self.f.unit.where(s), '`, `'.join(other)))
+                for txt, v in lits:
+                    self.thresholds.append((self.f.unit.where(s), txt, v))
                 self.notes.append('%s: the branch taken only when a value is NaN (null latent variable) is not part of the regular path' % self.f.unit.where(s))
                 return
         if k in ('UnaryOperator',) and s.get('opcode') in ('++', '--') and not fe.is_float_type(s):
@@ -446,7 +505,7 @@ def exec_paths(state, stmts):
                 nxt += l2
                 exits += e2
                 continue
-            if k == 'IfStmt' and not (_has_nan_test(kids(s)[0]) and len(kids(s)) == 2):
+            if k == 'IfStmt' and not (len(kids(s)) == 2 and guard_kind(st.f, kids(s)[0]) is not None):
                 ks = kids(s)
                 ctext = st.f.unit.text(ks[0]).replace(' ', '')
                 a = st.clone()
@@ -492,6 +551,18 @@ def proportional(u, v, defs=None):
         return False
     b0 = sorted(u)[0]
     return all((u[b] * v[b0]).same(v[b] * u[b0]) for b in u)
+
+
+def report_thresholds(chk, rule, f, st):
+    for w, txt, v in getattr(st, 'thresholds', []):
+        chk.instance(rule, '%s %s: the component is replaced by zeros whenever `%s`' % (w, f.name, txt), 'refuted')
+        chk.violation(Finding(rule, rel(f.file), f.name, 'threshold:%s' % txt.replace(' ', '')[:30], w,
+                              '%s: the branch that returns a zero component is taken not only for a NaN / exactly zero value but whenever `%s` -- an absolute '
+                              'threshold (%g) on a quantity that scales with the data, so for small-scale or nearly collinear data a genuine component is '
+                              'dropped and the fit is no longer the least-squares fit' % (f.name, txt, v)))
+    n = len(getattr(st, 'thresholds', []))
+    st.thresholds = []
+    return n
 
 
 def report_partial(chk, rule, f, st, where):
@@ -630,6 +701,7 @@ def latent_variable(chk, prog):
                 elif not vsame(uv, u_want):
                     probs.append(('u', 'the response score is %s, not Y q / q\'q = %s' % (vshow(uv)[:200], vshow(u_want)[:200])))
             kindp = 'several responses'
+        report_thresholds(chk, Ri, f, ex_)
         if report_partial(chk, Ri, f, ex_, 'iteration'):
             ex_.partial = []
             continue
@@ -647,6 +719,7 @@ def latent_variable(chk, prog):
         chk.broke('LVCalc: the statements after the iteration are not understood: %s' % e)
         return None
     report_partial(chk, R, f, tl, 'after the iteration')
+    report_thresholds(chk, R, f, tl)
     # ---- the definition (steps 9-14 of the documented algorithm), in the same algebra ------------------------------------
     T0, U0, W0, Q0 = ({x: ONE} for x in (tn, un, wn, qn))
     X0 = {('M', Xn): ONE}
@@ -1146,8 +1219,52 @@ def blocks(chk, prog):
         chk.violation(Finding('PLS.blocks', rel(f.file), f.name, key, f.where, msg))
 
 
+def clamps(chk, prog, rule, names):
+    """a count parameter (number of components) is only ever lowered to an available count:  if (n > e) n = e"""
+    R = chk.rule(rule, 'the number of components a routine is asked for is only changed by  if (n > e) n = e  (lowered to what is available, never below it)')
+    for name in names:
+        f = prog.funcs.get(name)
+        if f is None or f.body is None:
+            chk.broke('%s not found' % name)
+            continue
+        ints = {p['name'] for p in f.params if not fe.is_float_type(p) and '*' not in str(p.get('type', {}).get('qualType', ''))}
+        parents = {}
+        for n in walk(f.body):
+            for c in kids(n):
+                parents[id(strip(c))] = n
+                parents[id(c)] = n
+        for n in walk(f.body):
+            if n.get('kind') in ('BinaryOperator', 'CompoundAssignOperator') and n.get('opcode', '').endswith('=') and n.get('opcode') not in ('==', '!=', '<=', '>='):
+                l0 = strip(kids(n)[0])
+                if l0.get('kind') != 'DeclRefExpr' or l0['referencedDecl'].get('name') not in ints:
+                    continue
+                pnm = l0['referencedDecl'].get('name')
+                rhs = f.unit.text(kids(n)[1]).replace(' ', '')
+                # the enclosing if
+                cur, cond = n, None
+                for _ in range(4):
+                    par = parents.get(id(cur))
+                    if par is None:
+                        break
+                    if par.get('kind') == 'IfStmt':
+                        ks = kids(par)
+                        inthen = any(m is n for m in walk(ks[1]))
+                        cond = (f.unit.text(ks[0]).replace(' ', ''), inthen)
+                        break
+                    cur = par
+                ok = n.get('opcode') == '=' and cond is not None and cond[1] and cond[0] in ('%s>%s' % (pnm, rhs), '%s<%s' % (rhs, pnm), '%s>=%s' % (pnm, rhs), '%s<=%s' % (rhs, pnm))
+                if ok:
+                    chk.instance(R, '%s %s: if (%s) %s = %s' % (f.unit.where(n), name, cond[0], pnm, rhs))
+                else:
+                    chk.instance(R, '%s %s: %s' % (f.unit.where(n), name, f.unit.text(n)[:80]), 'refuted')
+                    chk.violation(Finding(rule, rel(f.file), name, 'clamp:%s' % pnm, f.unit.where(n),
+                                          '%s: the requested count %s is changed by `%s`%s, not lowered to an available count by `if (%s > e) %s = e`' %
+                                          (name, pnm, f.unit.text(n)[:80], ' under `%s`' % cond[0] if cond else '', pnm, pnm)))
+
+
 def run(chk, prog):
     from . import matexpr
+    clamps(chk, prog, 'PLS.clamp', ('PLS', 'PLSScorePredictor', 'PLSYPredictor', 'PLSBetasCoeff'))
     for r_ in ('PLS.iteration', 'PLS.latent-variable', 'PLS.store'):
         chk.rule(r_, '')
     roles = latent_variable(chk, prog)
